@@ -14,6 +14,8 @@ Every hook only fires for contracts that opt in with ``c02_lnk = True``, so that
   hypotheses of the cited lemma are generated as obligations (kind ``safety``, label ``cited-lemma-hypothesis:...``), its conclusion is then
   assumed (the lemma itself is a ``lemma = True`` contract of the property); an entry labelled ``derived:...`` is an intermediate fact that is
   proved on the spot (an obligation) before it is handed to the later proofs.
+* ``slice(a, b)``, ``[slice(None)] * array.ndim`` (a concrete mutable list of slices), ``l[-1] = slice(..)``, ``tuple(l)``: the index expressions
+  of ``split_array_to_dict_of_arrays``.
 * ``a.nonzero()``: npmodel's enumeration, its "every non-zero position has a rank" axiom restated with the trigger ``a[i]``.
 """
 from __future__ import annotations
@@ -25,7 +27,7 @@ import z3
 from . import contract as C
 from .npmodel import ArrObj, TArr, _arr, _is_arr
 from .plug_c14 import C14Models
-from .values import DictObj, ListObj, PyObj, Ref, SV, TBool, TInt, TReal, TStr, Unsupported, type_of_value
+from .values import DictObj, HeapObj, ListObj, PyObj, Ref, SV, TBool, TInt, TReal, TStr, Unsupported, type_of_value
 
 _c14 = C14Models()
 
@@ -43,7 +45,41 @@ class CatInfo:
         self.res_elems = None  # elements of the concatenation (z3 array)
 
 
+class SliceListObj(HeapObj):
+    """A small mutable Python list of slice objects (``[slice(None)] * array.ndim``), kept concrete."""
+
+    def __init__(self, items):
+        self.items = list(items)
+
+    def clone(self):
+        c = SliceListObj(self.items)
+        return c
+
+
+def _is_slice(v):
+    return isinstance(v, tuple) and len(v) == 4 and v[0] == "slice"
+
+
 class C02Models:
+    # ------------------------------------------------------------------ lists of slices (split_array_to_dict_of_arrays)
+    def binop(self, ex, op, a, b, lineno, inplace=False):
+        if _on(ex) and op == "Mult" and isinstance(a, tuple) and a and all(_is_slice(x) for x in a) and isinstance(b, int) and not isinstance(b, bool):
+            return ex.st.alloc(SliceListObj(list(a) * b))
+        return NotImplemented
+
+    def setitem(self, ex, cont, key, v, lineno):
+        if isinstance(cont, Ref) and isinstance(ex.st.heap.get(cont.id), SliceListObj):
+            from .engine import PyRaise
+
+            o = ex.st.heap[cont.id]
+            if not isinstance(key, int) or not _is_slice(v):
+                raise Unsupported("list of slices: store with a symbolic index / of a non-slice")
+            if not -len(o.items) <= key < len(o.items):
+                raise PyRaise("IndexError", lineno)
+            o.items[key] = v
+            return True
+        return NotImplemented
+
     # ------------------------------------------------------------------ comprehensions
     def comprehension(self, ex, node, kind):
         if not _on(ex) or kind not in ("gen", "list") or len(node.generators) != 1:
@@ -215,6 +251,11 @@ class C02Models:
         st = ex.st
         if name == "tuple" and len(args) == 1 and isinstance(args[0], Ref) and getattr(st.heap.get(args[0].id), "c02_seq", False):
             return args[0]
+        if name == "tuple" and len(args) == 1 and isinstance(args[0], Ref) and isinstance(st.heap.get(args[0].id), SliceListObj):
+            return tuple(st.heap[args[0].id].items)
+        if name == "slice" and not kwargs and 1 <= len(args) <= 2:
+            # slice(stop) / slice(start, stop): the engine's representation of a[start:stop]
+            return ("slice", None, args[0], None) if len(args) == 1 else ("slice", args[0], args[1], None)
         if name == "numpy.concatenate" and len(args) == 1 and not kwargs and isinstance(args[0], Ref) and isinstance(st.heap[args[0].id], ListObj) \
                 and isinstance(st.heap[args[0].id].t, TArr) and st.heap[args[0].id].t.rank == 1:
             L = st.heap[args[0].id]
